@@ -153,6 +153,20 @@ def oracle(ck, tier, deep):
         cp *= 2.0
         if not np.array_equal(pp.func, f0) or not np.allclose(cp.func, 2 * f0, rtol=1e-15, atol=0):
             ck.violation(dict(site="PiecewisePolynomial", clause="copy"), rep, "copy is not independent")
+        # the pieces an object exposes (.p) follow every scalar operation: each is still the polynomial on its interval, times the factor
+        dq = pp.copy()
+        dq /= k
+        chain = (pp / k).copy() * 3.0
+        for label, obj, fac in (("p*k", m1, k), ("p/k", d1, 1 / k), ("p/=k", dq, 1 / k), ("copy*=2", cp, 2.0), ("(p/k).copy()*3", chain, 3.0 / k)):
+            if not (np.allclose(obj.func, fac * f0, rtol=1e-13, atol=1e-300) and np.allclose(obj.abel, fac * a0, rtol=1e-13, atol=1e-300)):
+                ck.violation(dict(site="PiecewisePolynomial", clause="scalar-ops"), dict(rep, k=k, op=label), f"{label}: func/abel are not the scaled arrays")
+                break
+            bad = [i for i, (q, q0) in enumerate(zip(obj.p, parts))
+                   if not (np.allclose(q.func, fac * q0.func, rtol=1e-13, atol=1e-300) and np.allclose(q.abel, fac * q0.abel, rtol=1e-13, atol=1e-300))]
+            if bad:
+                ck.violation(dict(site="PiecewisePolynomial", clause="scalar-ops-pieces"), dict(rep, k=k, op=label, pieces=bad),
+                             f"{label}: pieces {bad} of the result are not the scaled pieces (they no longer sum to the whole)")
+                break
     # SPolynomial on a 2-D grid
     for it in range(20 if not deep else 300):
         shape = (int(rng.integers(7, 15)), int(rng.integers(7, 15)))
